@@ -2,6 +2,7 @@ package main
 
 import (
 	"bytes"
+	"encoding/json"
 	"fmt"
 	"math/rand"
 	"time"
@@ -34,51 +35,71 @@ import (
 // Every field is a small enumeration; the harness instantiates the configuration
 // with seeded contents.
 type Cfg struct {
-	Kind     string `json:"kind"`     // "ttf", "cff", "cid"
-	FDs      int    `json:"fds"`      // cid: number of private dictionaries
-	Cmap     string `json:"cmap"`     // "4", "12", "none", "multi" (Unicode, Windows and Mac subtables with different languages, shared and distinct data)
-	GlyfSize int    `json:"glyfsize"` // ttf: exact size in bytes of the glyf table (0 = whatever results)
-	RawTabs  string `json:"rawtabs"`  // ttf: cvt/fpgm/prep/gasp: "none", "sep" (separate slices), "shared" (sub-slices of one buffer)
-	Comp     int    `json:"comp"`     // ttf: composite nesting depth
-	Names    bool   `json:"names"`    // ttf: glyph names
-	N        int    `json:"n"`        // number of glyphs
-	Gsub     string `json:"gsub"`     // "none", "liga", "multi"
-	Gpos     string `json:"gpos"`     // "none", "pair", "multi"
-	Gdef     bool   `json:"gdef"`     //
-	Tags     string `json:"tags"`     // script list tags: "x" (with -x- extension), "noext", "ambig"
-	Reg      bool   `json:"reg"`      //
-	Bold     bool   `json:"bold"`     //
-	Ital     bool   `json:"ital"`     //
-	Obl      bool   `json:"obl"`      //
-	Serif    bool   `json:"serif"`    //
-	Script   bool   `json:"script"`   //
-	Weight   int    `json:"weight"`   //
-	Width    int    `json:"width"`    //
-	Angle    int    `json:"angle"`    // italic angle in units of 2^-20 degree
-	Fam      string `json:"fam"`      // "plain", "bold", "italic", "semibold"
-	Times    string `json:"times"`    // "c", "m", "both"
-	Frac     bool   `json:"frac"`     // sub-precision parts: nanoseconds, time zone, quarter units, fractional CFF widths
-	VerHi    int    `json:"ver_hi"`   //
-	VerLo    int    `json:"ver_lo"`   //
-	Strs     string `json:"strs"`     // "ascii", "latin1", "bmp", "astral", "empty"
-	Upm      int    `json:"upm"`      //
-	Scripts  string `json:"scripts"`  // script lists: "simple", "multi" (several scripts, 0..5 explicit language systems each, shared feature tags)
-	THi      int    `json:"t_hi"`     // instant of the creation time: Unix seconds = t_hi * 2^24 + t_lo
-	TLo      int    `json:"t_lo"`     //
-	Asc      int    `json:"asc"`      //
-	Desc     int    `json:"desc"`     //
-	Gap      int    `json:"gap"`      //
-	Cap      int    `json:"cap"`      //
-	XH       int    `json:"xh"`       //
-	Ulp      int    `json:"ulp"`      // underline position, quarter units
-	Ult      int    `json:"ult"`      // underline thickness, quarter units
-	CInstr   string `json:"cinstr"`   // ttf: instructions of composite glyphs: "off", "nil", "empty", "some", "odd"
-	CffIdx   string `json:"cffidx"`   // cff/cid: INDEX tuned to an exact data length: "off", "name", "string", "charstrings"
-	IdxLen   int    `json:"idxlen"`   // that length
-	Big      string `json:"big"`      // a table larger than 1024 bytes: "off", "gdef", "scripts", "features", "lookups", "name"
-	Group    string `json:"group"`    // generation group (informative)
-	Vary     string `json:"vary"`     // "onefactor" generation: the field taken through its domain (informative)
-	Perm     int    `json:"perm"`     //
+	Kind     string  `json:"kind"`     // "ttf", "cff", "cid"
+	FDs      int     `json:"fds"`      // cid: number of private dictionaries
+	Cmap     string  `json:"cmap"`     // "4", "12", "none", "multi" (Unicode, Windows and Mac subtables with different languages, shared and distinct data)
+	GlyfSize int     `json:"glyfsize"` // ttf: exact size in bytes of the glyf table (0 = whatever results)
+	RawTabs  string  `json:"rawtabs"`  // ttf: cvt/fpgm/prep/gasp: "none", "sep" (separate slices), "shared" (sub-slices of one buffer)
+	Comp     int     `json:"comp"`     // ttf: composite nesting depth
+	Names    bool    `json:"names"`    // ttf: glyph names
+	N        int     `json:"n"`        // number of glyphs
+	Gsub     string  `json:"gsub"`     // "none", "liga", "multi"
+	Gpos     string  `json:"gpos"`     // "none", "pair", "multi"
+	Gdef     bool    `json:"gdef"`     //
+	Tags     string  `json:"tags"`     // script list tags: "x" (with -x- extension), "noext", "ambig"
+	Reg      bool    `json:"reg"`      //
+	Bold     bool    `json:"bold"`     //
+	Ital     bool    `json:"ital"`     //
+	Obl      bool    `json:"obl"`      //
+	Serif    bool    `json:"serif"`    //
+	Script   bool    `json:"script"`   //
+	Weight   int     `json:"weight"`   //
+	Width    int     `json:"width"`    //
+	Angle    int     `json:"angle"`    // italic angle in units of 2^-20 degree
+	Fam      string  `json:"fam"`      // "plain", "bold", "italic", "semibold"
+	Times    string  `json:"times"`    // "c", "m", "both"
+	Frac     bool    `json:"frac"`     // sub-precision parts: nanoseconds, time zone, quarter units, fractional CFF widths
+	VerHi    int     `json:"ver_hi"`   //
+	VerLo    int     `json:"ver_lo"`   //
+	Strs     string  `json:"strs"`     // "ascii", "latin1", "bmp", "astral", "empty"
+	Upm      int     `json:"upm"`      //
+	Scripts  string  `json:"scripts"`  // script lists: "simple", "multi" (several scripts, 0..5 explicit language systems each, shared feature tags)
+	THi      int     `json:"t_hi"`     // instant of the creation time: Unix seconds = t_hi * 2^24 + t_lo
+	TLo      int     `json:"t_lo"`     //
+	Asc      int     `json:"asc"`      //
+	Desc     int     `json:"desc"`     //
+	Gap      int     `json:"gap"`      //
+	Cap      int     `json:"cap"`      //
+	XH       int     `json:"xh"`       //
+	Ulp      int     `json:"ulp"`      // underline position, quarter units
+	Ult      int     `json:"ult"`      // underline thickness, quarter units
+	CInstr   string  `json:"cinstr"`   // ttf: instructions of composite glyphs: "off", "nil", "empty", "some", "odd"
+	CffIdx   string  `json:"cffidx"`   // cff/cid: INDEX tuned to an exact data length: "off", "name", "string", "charstrings"
+	IdxLen   int     `json:"idxlen"`   // that length
+	Big      string  `json:"big"`      // a table larger than 1024 bytes: "off", "gdef", "scripts", "features", "lookups", "name"
+	HCnt     int     `json:"hcnt"`     // cff/cid: stem hint pairs of one glyph in direction hdir
+	OCnt     int     `json:"ocnt"`     // ... and in the other direction
+	HDir     string  `json:"hdir"`     // "h" or "v"
+	HMask    bool    `json:"hmask"`    // hintmask operators present
+	HWidth   bool    `json:"hwidth"`   // the hinted glyph has a width operand (its width differs from the default width)
+	CTab     IntList `json:"ctab"`     // class definition table: class of glyph 10+i (0 = not in the table); empty = none
+	Cov      IntList `json:"cov"`      // coverage table: the covered glyphs; empty = none
+	TRel     string  `json:"trel"`     // modification time relative to creation time: "after", "equal", "before"
+	Cpr      string  `json:"cpr"`      // code page ranges: "none", "low", "high", "both"
+	Group    string  `json:"group"`    // generation group (informative)
+	Vary     string  `json:"vary"`     // "onefactor" generation: the field taken through its domain (informative)
+	Perm     int     `json:"perm"`     //
+}
+
+// IntList is a list of integers that is never written as JSON null (TLC's Json module has no null).
+type IntList []int
+
+// MarshalJSON implements json.Marshaler.
+func (l IntList) MarshalJSON() ([]byte, error) {
+	if l == nil {
+		return []byte("[]"), nil
+	}
+	return json.Marshal([]int(l))
 }
 
 var families = map[string]string{
@@ -448,7 +469,14 @@ func Build(c Cfg, id int) *sfnt.Font {
 		ns = 123456789 + 100000000*rng.Intn(8)
 	}
 	created := time.Unix(int64(c.THi)<<24+int64(c.TLo), int64(ns)).In(zone)
-	modified := created.Add(time.Duration(86401+rng.Intn(1000)) * time.Second)
+	day := time.Duration(86401+rng.Intn(1000)) * time.Second
+	modified := created.Add(day)
+	switch c.TRel {
+	case "equal":
+		modified = created
+	case "before":
+		modified = created.Add(-day)
+	}
 	f.CreationTime, f.ModificationTime = time.Time{}, time.Time{}
 	if c.Times == "c" || c.Times == "both" {
 		f.CreationTime = created
@@ -463,8 +491,13 @@ func Build(c Cfg, id int) *sfnt.Font {
 	}
 	f.Description, f.SampleText, f.Copyright, f.Trademark, f.License, f.LicenseURL = ss[0], ss[1], ss[2], ss[3], ss[4], ss[5]
 	f.PermUse = os2.Permissions(c.Perm)
-	f.CodePageRange = os2.CodePageRange(1)<<os2.CP1252 | os2.CodePageRange(uint64(rng.Intn(2)))<<os2.CP437 |
-		os2.CodePageRange(uint64(rng.Intn(2)))<<os2.CP1251
+	f.CodePageRange = 0
+	if c.Cpr == "low" || c.Cpr == "both" || c.Cpr == "" {
+		f.CodePageRange |= os2.CodePageRange(1)<<os2.CP1252 | os2.CodePageRange(uint64(rng.Intn(2)))<<os2.CP1251
+	}
+	if c.Cpr == "high" || c.Cpr == "both" || c.Cpr == "" {
+		f.CodePageRange |= os2.CodePageRange(1)<<os2.CP437 | os2.CodePageRange(uint64(rng.Intn(2)))<<os2.CP852
+	}
 
 	f.UnitsPerEm = uint16(c.Upm)
 	q := 1 / float64(c.Upm)
@@ -478,6 +511,9 @@ func Build(c Cfg, id int) *sfnt.Font {
 	f.Gsub = makeGsub(c, total)
 	f.Gpos = makeGpos(c, total)
 	f.Gdef = makeGdef(c, total)
+	stemHints(f, c)
+	classTables(f, c, total)
+	coverageTables(f, c, total)
 	bigLayout(c, f.Gsub, total, true)
 	bigLayout(c, f.Gpos, total, false)
 	switch c.Big {
